@@ -197,6 +197,46 @@ def c18(chk):
     chk.assumptions += ["the collector's use of IterateBeforeSeq (yield, then PopFront) is driven as usecase/core/delete_old.go drives it"]
 
 
+def c19(chk):
+    quick = chk.tier == "quick"
+    common = dict(view=None, properties=(), exe="record", fs=False, chunk=5000)
+    spec_stage(chk, "golden_records", "Record.tla", dict(Mode="records", MaxLen=0), emit="Emit",
+               invariants=("RoundTrip", "ShortRejected"), sample=3000 if quick else None, **common)
+    spec_stage(chk, "byte_strings", "Record.tla", dict(Mode="bytes", MaxLen=42), emit="Emit", invariants=(),
+               simulate=60 if quick else 1500, depth=43, **common)
+    fixture_stage(chk)
+    chk.assumptions += ["the layout function of Record.tla is the release layout stated in the property (transcription)",
+                        "sequence values are rebuilt from base-256 digits by positional value, not by a byte-order routine"]
+
+
+def fixture_stage(chk):
+    """A database directory written by the pinned revision must load to the recorded state."""
+    import subprocess
+    exe = vlib.build("fixture")
+    fx = os.path.join(vlib.VERIF, "fixtures", "pinned_db")
+    wd = vlib.scratch("fx")
+    try:
+        shutil.copytree(fx, os.path.join(wd, "fx"))
+        p = subprocess.run([exe, "-check", os.path.join(wd, "fx")], capture_output=True, text=True, timeout=300, env=vlib.GOENV)
+        out = p.stdout.strip().splitlines()
+        last = json.loads(out[-1]) if out else {}
+        chk.traces += 1
+        chk.stages.append({"stage": "pinned_fixture", "keys_checked": last.get("keys", 0), "status": last.get("status")})
+        if last.get("status") == "violation":
+            chk.violation("database written by the pinned revision: " + last.get("detail", ""), {"fixture": fx, "detail": last})
+        elif last.get("status") != "ok":
+            raise Inconclusive("fixture check failed to run: %s %s" % (p.stdout[-500:], p.stderr[-500:]))
+    finally:
+        shutil.rmtree(wd, ignore_errors=True)
+
+
+def c20(chk):
+    quick = chk.tier == "quick"
+    spec_stage(chk, "cases", "Config.tla", dict(Width=2 if quick else 3), view=None, emit="Emit", invariants=("Layering",),
+               properties=(), exe="conf", fs=False, chunk=2000)
+    chk.assumptions += ["settings interact only through error precedence and Valid, so all cases with at most %d settings away from 'absent' are enumerated" % (2 if quick else 3)]
+
+
 def c11(chk):
     quick = chk.tier == "quick"
     auto = {"set", "del", "emptyset"}
@@ -210,7 +250,7 @@ def c11(chk):
              mode="both", simulate=40 if quick else 800, depth=30)
 
 
-PLANS = {"C18": c18, "C05": c05, "C11": c11, "C01": c01, "C02": c02, "C03": c03, "C09": c09, "C13": c13, "C14": c14}
+PLANS = {"C18": c18, "C19": c19, "C20": c20, "C05": c05, "C11": c11, "C01": c01, "C02": c02, "C03": c03, "C09": c09, "C13": c13, "C14": c14}
 
 
 def main():
